@@ -55,6 +55,7 @@ const ALL_HASHERS: &[HasherKind] = &[
     HasherKind::Keyed,
     HasherKind::Colliding,
     HasherKind::Coarse,
+    HasherKind::OneShot,
 ];
 
 fn base_ops() -> Vec<(&'static str, u32)> {
